@@ -15,3 +15,18 @@ Example C08_nontrivial_round :
   N FDocstring (mkT false (IBase BInt), DInt (-3)) = Some (mkT false (IBase BInt), DFloat (s2l "-3.0"))
   /\ N FArgparse (mkT false (IBase BBool), DAbs) = Some (mkT true (IBase BBool), DAbs).
 Proof. split; vm_compute; reflexivity. Qed.
+
+(* The ReST docstring format at the level of the text itself (descriptions included): for every description of the
+   domain of C01_rest_roundtrip, converting the emitted docstring once more (parse it, emit it again) writes the
+   same text, and so does every later round. *)
+From CDD Require Import RestDoc RestDocProofs.
+Definition rest_round (t : str) : str := let p := parse_rest t in emit_rest true (p_doc p) (p_params p) (p_ret p).
+Fixpoint rest_rounds (n : nat) (t : str) : str := match n with O => t | S k => rest_round (rest_rounds k t) end.
+Theorem C08_rest_text_fixpoint : forall doc ps ret,
+  clean doc = true -> forallb param_ok ps = true -> NoDup (map fst ps) -> ps <> [] -> ret_ok ret = true ->
+  forall n, rest_rounds n (emit_rest true doc ps ret) = emit_rest true doc ps ret.
+Proof.
+  intros doc ps ret H1 H2 H3 H4 H5 n. induction n as [|n IH]; [reflexivity|]. cbn [rest_rounds]. rewrite IH.
+  unfold rest_round. rewrite (rest_roundtrip doc ps ret H1 H2 H3 H4 H5). reflexivity.
+Qed.
+Print Assumptions C08_rest_text_fixpoint.
